@@ -20,7 +20,7 @@ use std::collections::{BTreeMap, BTreeSet};
 pub const META: PropertyMeta = PropertyMeta {
     id: "C09",
     level: "exploration",
-    rule: "cases: a pre-history on device 0 synced to the server, 2..3 cloned devices with 0..3 offline edits each drawn so that the case is one of {no conflict, soft conflict on a folder, soft conflict on account/identity logs, hard conflict (one device compacted a folder)}; every device then calls execute_sync concurrently. The direct client parks every request (exists, status, sync, scan, diff, patch, ...) at a gate and the harness grants exactly one parked request at a time; a schedule is the sequence of grant choices. Per case the schedules are enumerated in DFS (odometer) order up to a cap (40 quick / 1500 thorough; `exhaustive` is reported per case when the whole tree fits) plus 8 scripts drawn by proptest plus the policy schedules (for every device x and every hold point in {sync, scan, diff, patch}: x runs alone up to that request and is held there while the other devices sync completely - in both orders, optionally one of them before x starts, optionally held at the same point too - then x resumes); every schedule re-executes from copied template directories. Oracle per schedule: every sync call terminates (no task left parked or unfinished) and ends in Ok or an error value; after every granted request the server's logs are read: every record ever present on the server after a request is still present at the end (no accepted event dropped), commits are the SHA-256 of their records and the in-memory trees equal storage; finally one sequential round-robin to a fixpoint must converge as in C04. Non-trivial = a request of another device was served between one device's status and its sync/patch. Distinct = distinct (case, schedule).",
+    rule: "cases: a pre-history on device 0 synced to the server, 2..3 cloned devices with 0..3 offline edits each drawn so that the case is one of {no conflict, soft conflict on a folder, soft conflict on account/identity logs, hard conflict (one device compacted a folder)}; every device then calls execute_sync concurrently. The direct client parks every request (exists, status, sync, scan, diff, patch, ...) at a gate and the harness grants exactly one parked request at a time; a schedule is the sequence of grant choices. Per case the schedules are enumerated in DFS (odometer) order up to a cap (40 quick / 600 thorough; `exhaustive` is reported per case when the whole tree fits) plus 8 scripts drawn by proptest plus the policy schedules (for every device x and every hold point in {sync, scan, diff, patch}: x runs alone up to that request and is held there while the other devices sync completely - in both orders, optionally one of them before x starts, optionally held at the same point too - then x resumes); every schedule re-executes from copied template directories. Oracle per schedule: every sync call terminates (no task left parked or unfinished) and ends in Ok or an error value; after every granted request the server's logs are read: every record ever present on the server after a request is still present at the end (no accepted event dropped), commits are the SHA-256 of their records and the in-memory trees equal storage; finally one sequential round-robin to a fixpoint must converge as in C04. Non-trivial = a request of another device was served between one device's status and its sync/patch. Distinct = distinct (case, schedule).",
     assumptions: &[
         "interleaving granularity is one whole request: the server handles a request under its per-account write lock, which is assumed (races inside a request are not explored)",
         "the tolerated C04 known findings apply to the final convergence step",
@@ -503,8 +503,8 @@ impl<'a> Tally<'a> {
 
 fn run(shard: &Shard, rep: &mut Report) {
     let t = shard.tier;
-    let cases = shard.share(t.pick(32, 640));
-    let cap = t.pick(40usize, 1500usize);
+    let cases = shard.share(t.pick(32, 240));
+    let cap = t.pick(40usize, 600usize);
     let mut tally = Tally { shard, rep, seen: BTreeSet::new() };
     let mut all_exhaustive = true;
     for i in 0..cases {
